@@ -2,6 +2,7 @@
 package ctime
 
 import (
+	_ "time/tzdata"
 	"fmt"
 	"math"
 	"time"
@@ -167,12 +168,15 @@ type TPos struct {
 	N  *time.Time
 	N2 *time.Time
 	Z  time.Time
+	// nullable unions decoded into a time.Time VALUE (the shape generated for omitempty / BigQuery columns)
+	NV  time.Time
+	NV2 time.Time
 }
 
 func posSchema(u unit) string {
 	t := u.schema
 	return `{"type":"record","name":"p","fields":[{"name":"A","type":` + t + `},{"name":"B","type":` + t + `},{"name":"L","type":{"type":"array","items":` + t +
-		`}},{"name":"M","type":{"type":"map","values":` + t + `}},{"name":"N","type":["null",` + t + `]},{"name":"N2","type":[` + t + `,"null"]},{"name":"Z","type":` + t + `}]}`
+		`}},{"name":"M","type":{"type":"map","values":` + t + `}},{"name":"N","type":["null",` + t + `]},{"name":"N2","type":[` + t + `,"null"]},{"name":"Z","type":` + t + `},{"name":"NV","type":["null",` + t + `]},{"name":"NV2","type":[` + t + `,"null"]}]}`
 }
 
 type posVal struct {
@@ -207,7 +211,11 @@ func encodePos(v posVal) []byte {
 	} else {
 		b = ref.AppendLong(b, 1)
 	}
-	return ref.AppendLong(b, v.la)
+	b = ref.AppendLong(b, v.la)
+	b = ref.AppendLong(b, 1) // NV: [null,T], the T branch
+	b = ref.AppendLong(b, v.la)
+	b = ref.AppendLong(b, 0) // NV2: [T,null], the T branch
+	return ref.AppendLong(b, v.lb)
 }
 
 func checkPos(u unit, v posVal, g *TPos) string {
@@ -256,7 +264,13 @@ func checkPos(u unit, v posVal, g *TPos) string {
 	} else if g.N2 != nil {
 		return "N2([T,null]) not nil for a null"
 	}
-	return eq("Z", &g.Z, v.la)
+	if d := eq("Z", &g.Z, v.la); d != "" {
+		return d
+	}
+	if d := eq("NV([null,T] into a time.Time value)", &g.NV, v.la); d != "" {
+		return d
+	}
+	return eq("NV2([T,null] into a time.Time value)", &g.NV2, v.lb)
 }
 
 // runPositions decodes pairs of consecutive records (same ReadBuf, so the same resource bank) whose logical-time
@@ -344,7 +358,11 @@ func swapMap(v posVal) []byte {
 	} else {
 		b = ref.AppendLong(b, 1)
 	}
-	return ref.AppendLong(b, v.la)
+	b = ref.AppendLong(b, v.la)
+	b = ref.AppendLong(b, 1) // NV: [null,T], the T branch
+	b = ref.AppendLong(b, v.la)
+	b = ref.AppendLong(b, 0) // NV2: [T,null], the T branch
+	return ref.AppendLong(b, v.lb)
 }
 
 var memo19 = map[string][]task{}
@@ -482,6 +500,38 @@ func tasks19(tier string) []task {
 		u := u
 		ts = append(ts, task{u.name + "-positions", func(c *fw.Ctx) { runPositions(c, u) }})
 	}
+	// the same instants whatever the process's local zone is: time.Local set to zones with daylight saving
+	ts = append(ts, task{"process-zone-with-daylight-saving", func(c *fw.Ctx) {
+		saved := time.Local
+		defer func() { time.Local = saved }()
+		for _, zn := range []string{"America/New_York", "Europe/London", "Australia/Lord_Howe"} {
+			loc, err := time.LoadLocation(zn)
+			if err != nil {
+				c.HarnessError("tzdata: " + err.Error())
+				return
+			}
+			time.Local = loc
+			for _, u := range units {
+				for _, base := range []int64{0, 1, -1, 180, 200, -180, 20454, 20635, 18690, -719162} { // days; scaled for the long units
+					for d := int64(-2); d <= 2; d++ {
+						i := base + d
+						if u.name != "date" {
+							i = (base+d)*86400*map[string]int64{"timestamp-millis": 1000, "timestamp-micros": 1000000}[u.name] + d
+							if u.name != "timestamp-millis" && u.name != "timestamp-micros" {
+								i = (base+d)*86400*1000000000 + d
+							}
+						}
+						if i < u.lo || i > u.hi {
+							continue
+						}
+						readOne(c, u, i)
+						writeOne(c, u, u.toTime(i))
+						writeOne(c, u, u.toTime(i).In(loc))
+					}
+				}
+			}
+		}
+	}})
 	// write direction over every day boundary near the epoch: t = d*86400 s + {−1ns,0,+1ns}
 	ts = append(ts, task{"date-write-day-boundaries", func(c *fw.Ctx) {
 		n := int64(20000)
@@ -504,9 +554,9 @@ func init() {
 		Level: "exploration",
 		Rule: func(tier string) string {
 			if tier == "thorough" {
-				return "exhaustive/structured enumeration through the real codecs built by Schema.Codec for struct{T time.Time}: read direction — every int32 day count (2^32); for timestamp-millis, timestamp-micros and plain long every 2^k±131072 inside the range representable in int64 nanoseconds plus the range extremes; write direction — ~13 base times × 31 offsets around them (±1ns/µs/ms/s/day) and every day boundary ±3,000,000 days around the epoch; and, per unit, pairs of consecutive records carrying the type in every position (two *time.Time fields, []time.Time, map[string]time.Time, [null,T] and [T,null] into *time.Time, plain field) over all pairs of an 8-value alphabet × the 4 null patterns, checked after both records are decoded and re-encoded; each (unit, integer) or (unit, time) is a distinct case; non-trivial = compared with independent arithmetic (time.Unix/UnixMilli/UnixMicro, floor division)"
+				return "exhaustive/structured enumeration through the real codecs built by Schema.Codec for struct{T time.Time}: read direction — every int32 day count (2^32); for timestamp-millis, timestamp-micros and plain long every 2^k±131072 inside the range representable in int64 nanoseconds plus the range extremes; write direction — ~13 base times × 31 offsets around them (±1ns/µs/ms/s/day) and every day boundary ±3,000,000 days around the epoch; and, per unit, pairs of consecutive records carrying the type in every position (two *time.Time fields, []time.Time, map[string]time.Time, [null,T] and [T,null] into *time.Time and into time.Time values, plain field) over all pairs of an 8-value alphabet × the 4 null patterns, checked after both records are decoded and re-encoded; and a set of summer and winter days/instants read and written with the process zone (time.Local) set to three daylight-saving zones; each (unit, integer) or (unit, time) is a distinct case; non-trivial = compared with independent arithmetic (time.Unix/UnixMilli/UnixMicro, floor division)"
 			}
-			return "exhaustive/structured enumeration through the real codecs built by Schema.Codec for struct{T time.Time}: read direction — every day count with |d|<=2^20 plus ±512 around every power of two; for timestamp-millis, timestamp-micros and plain long every 2^k±1024 inside the range representable in int64 nanoseconds plus the range extremes; write direction — ~13 base times × 31 offsets around them and every day boundary ±20,000 days around the epoch; per unit, pairs of consecutive records carrying the type in every position (two *time.Time fields, []time.Time, map[string]time.Time, [null,T] and [T,null] into *time.Time, plain field) over all pairs of an 8-value alphabet × the 4 null patterns, checked after both records are decoded and re-encoded; each (unit, integer) or (unit, time) is a distinct case; non-trivial = compared with independent arithmetic"
+			return "exhaustive/structured enumeration through the real codecs built by Schema.Codec for struct{T time.Time}: read direction — every day count with |d|<=2^20 plus ±512 around every power of two; for timestamp-millis, timestamp-micros and plain long every 2^k±1024 inside the range representable in int64 nanoseconds plus the range extremes; write direction — ~13 base times × 31 offsets around them and every day boundary ±20,000 days around the epoch; per unit, pairs of consecutive records carrying the type in every position (two *time.Time fields, []time.Time, map[string]time.Time, [null,T] and [T,null] into *time.Time and into time.Time values, plain field) over all pairs of an 8-value alphabet × the 4 null patterns, checked after both records are decoded and re-encoded; a set of summer and winter days/instants read and written with the process zone (time.Local) set to three daylight-saving zones; each (unit, integer) or (unit, time) is a distinct case; non-trivial = compared with independent arithmetic"
 		},
 		Assumptions: []string{
 			"plain long follows the library's documented convention: nanoseconds since the epoch",
